@@ -120,6 +120,32 @@ pub fn literal(sym: &str) -> Result<String, String> {
 #[derive(Serialize, Deserialize, Debug, PartialEq)] struct Seq2 { v: Vec<String>, w: Vec<u32> }
 #[derive(Serialize, Deserialize, Debug, PartialEq)] struct TupSeq { t: (u32, u32), w: Vec<u32> }
 type Map = BTreeMap<String, String>;
+/// a string map that keeps the order in which its entries were inserted (what `indexmap`, a `HashMap` or a flattened map give the
+/// serializer: entries in an order that is not the order of the keys)
+#[derive(Debug, PartialEq)] struct OMap(Vec<(String, String)>);
+impl Serialize for OMap {
+    fn serialize<S: serde::Serializer>(&self, s: S) -> Result<S::Ok, S::Error> {
+        use serde::ser::SerializeMap;
+        let mut m = s.serialize_map(Some(self.0.len()))?;
+        for (k, v) in &self.0 { m.serialize_entry(k, v)? }
+        m.end()
+    }
+}
+impl<'de> Deserialize<'de> for OMap {
+    fn deserialize<D: serde::Deserializer<'de>>(d: D) -> Result<Self, D::Error> {
+        struct V;
+        impl<'de> serde::de::Visitor<'de> for V {
+            type Value = OMap;
+            fn expecting(&self, f: &mut std::fmt::Formatter) -> std::fmt::Result { f.write_str("a map") }
+            fn visit_map<A: serde::de::MapAccess<'de>>(self, mut a: A) -> Result<OMap, A::Error> {
+                let mut out = vec![];
+                while let Some((k, v)) = a.next_entry::<String, String>()? { out.push((k, v)) }
+                Ok(OMap(out))
+            }
+        }
+        d.deserialize_map(V)
+    }
+}
 
 /// a concretised field of a round-trip scenario: elements are strings (class tokens made concrete) or "#symbols"
 pub struct FieldIn { pub name: String, pub key: String, pub elems: Vec<String> }
@@ -216,6 +242,15 @@ impl Cat for Map {
     fn project(&self) -> Proj { self.iter().map(|(k, v)| (k.clone(), vec![v.clone()])).collect() }
 }
 
+impl Cat for OMap {
+    fn build(i: &In) -> Result<Self, String> {
+        let mut m: Vec<(String, String)> = vec![];
+        for f in i.0 { if m.iter().any(|(k, _)| *k == f.key) { return Err("dup".into()) } m.push((f.key.clone(), f.elems.first().cloned().unwrap_or_default())) }
+        Ok(OMap(m))
+    }
+    fn project(&self) -> Proj { self.0.iter().map(|(k, v)| (k.clone(), vec![v.clone()])).collect() }
+}
+
 fn proj_json(p: &Proj) -> Value {
     Value::Array(p.iter().map(|(n, es)| json!({"n": cps(n), "v": es.iter().map(|e| cps(e)).collect::<Vec<_>>()})).collect())
 }
@@ -236,7 +271,7 @@ fn tool(msg: impl Into<String>) -> Value { json!({"kind": "tool-error", "msg": m
 macro_rules! dispatch { ($ty:expr, $f:ident ( $($a:expr),* )) => { match $ty {
     "Ints" => $f::<Ints>($($a),*), "Floats" => $f::<Floats>($($a),*), "Scal" => $f::<Scal>($($a),*), "Str1" => $f::<Str1>($($a),*),
     "Str2" => $f::<Str2>($($a),*), "Ch" => $f::<Ch>($($a),*), "Opt" => $f::<Opt>($($a),*), "OptEnd" => $f::<OptEnd>($($a),*),
-    "En" => $f::<En>($($a),*), "Nt" => $f::<Nt>($($a),*), "SeqS" => $f::<SeqS>($($a),*), "SeqN" => $f::<SeqN>($($a),*), "Seq2" => $f::<Seq2>($($a),*), "TupSeq" => $f::<TupSeq>($($a),*), "Map" => $f::<Map>($($a),*),
+    "En" => $f::<En>($($a),*), "Nt" => $f::<Nt>($($a),*), "SeqS" => $f::<SeqS>($($a),*), "SeqN" => $f::<SeqN>($($a),*), "Seq2" => $f::<Seq2>($($a),*), "TupSeq" => $f::<TupSeq>($($a),*), "Map" => $f::<Map>($($a),*), "OMap" => $f::<OMap>($($a),*),
     other => tool(format!("unknown type tag {other}")) } } }
 
 // ------------------------------------------------------------------ mode rt
@@ -397,7 +432,7 @@ pub fn gen(rng: &mut Rng, _i: usize) -> Value {
             if rng.chance(1, 8) {
                 let n = rng.below(5);
                 let val: Vec<Value> = (0..n).map(|_| json!({"f": "", "k": "entry", "key": rnd_toks(rng, 6), "v": [rnd_toks(rng, 6)]})).collect();
-                return json!({"mode": "rt", "ty": "Map", "val": val});
+                return json!({"mode": "rt", "ty": if rng.chance(1, 2) { "Map" } else { "OMap" }, "val": val});
             }
             let (ty, fs) = KINDS[rng.below(KINDS.len())];
             let val: Vec<Value> = fs.iter().map(|(f, k)| {
